@@ -184,10 +184,10 @@ def worker(c):
         if mm is None:
             out = "rejected" if e is None else "rejected-with-error"
         else:
-            neg = [k for k, v in mm.sizes().items() if v < 0]
+            neg = [k for k, v in mm.sizes().items() if v < (-1 if k in ("njmax", "nconmax") else 0)]   # -1 = unlimited (documented)
             bad = model_refs.validate(mm) if not neg else []
             if neg:
-                P.violation("accepted-image-with-negative-size:%s" % neg[0], {"model": name, "case": c, "fault": kind, "at": desc, "sizes": neg[:5]})
+                P.violation("accepted-image-with-unvalidated-size:negative:%s" % neg[0], {"model": name, "case": c, "fault": kind, "at": desc, "sizes": neg[:5]})
                 out = "accepted-negative-size"
             elif bad:
                 arr, idx, val, hi = bad[0]
@@ -217,7 +217,7 @@ def worker(c):
         words = sorted(set(int(x) for x in rng.choice(words, size=c["nhdr"], replace=False)) | set(range(0, 64, 4)))
     for off in words:
         v = int(np.frombuffer(img[off:off + 4].tobytes(), dtype=np.int32)[0])
-        for nv in {0, -1, I32MAX, I32MIN, v + 1, v - 1, v * 2 + 1}:
+        for nv in ({0, -1, I32MAX, v + 1, v - 1} if c["nhdr"] < 100 else {0, -1, I32MAX, I32MIN, v + 1, v - 1, v * 2 + 1}):
             if nv == v or not (I32MIN <= nv <= I32MAX):
                 continue
             mut = img.copy()
@@ -240,7 +240,7 @@ def worker(c):
         flat = a.ravel()
         for i in idxs:
             v = int(flat[i])
-            for nv in (-1, -2, I32MAX, v + 1, int(a.max()) + 1, 1 << 20):
+            for nv in ((-1, I32MAX, int(a.max()) + 1) if c["nidx"] < 2 else (-1, -2, I32MAX, v + 1, int(a.max()) + 1, 1 << 20)):
                 if nv == v:
                     continue
                 mut = img.copy()
@@ -263,15 +263,15 @@ def worker(c):
 def run(ctx):
     rng = ctx.rng
     cs = []
-    base = dict(every_below=ctx.pick(24000, 60000), ntrunc=ctx.pick(300, 3000), nhdr=ctx.pick(120, 2000), nidx=ctx.pick(2, 8), nrandom=ctx.pick(40, 400))
-    for i in range(ctx.pick(14, 160)):
+    base = dict(every_below=ctx.pick(9000, 60000), ntrunc=ctx.pick(150, 3000), nhdr=ctx.pick(50, 2000), nidx=ctx.pick(1, 8), nrandom=ctx.pick(20, 400))
+    for i in range(ctx.pick(8, 160)):
         cs.append(dict(base, kind="gen", profile=["rich", "contact", "smooth"][i % 3], mseed=int(rng.integers(0, 2 ** 31)), seed=int(rng.integers(0, 2 ** 31))))
     corp = [c for c in corpus.loadable() if c["nv"] < 200 and c["nmesh"] == 0 and c["nflex"] == 0 and c["ngeom"] < 60]
     idx = rng.permutation(len(corp))
-    for i in idx[: ctx.pick(14, len(corp))]:
+    for i in idx[: ctx.pick(6, len(corp))]:
         cs.append(dict(base, kind="corpus", path=corp[int(i)]["path"], seed=int(rng.integers(0, 2 ** 31))))
     res = par.run("vf.props.c31", "worker", cs, nproc=14, timeout=ctx.pick(900, 3000), chunk=1)
-    acs = [dict(c, flavour="asan", every_below=0, ntrunc=ctx.pick(120, 600), nhdr=ctx.pick(40, 300), nidx=1, nrandom=ctx.pick(10, 80)) for c in cs[: ctx.pick(6, 40)]]
+    acs = [dict(c, flavour="asan", every_below=0, ntrunc=ctx.pick(60, 600), nhdr=ctx.pick(30, 300), nidx=1, nrandom=ctx.pick(8, 80)) for c in cs[: ctx.pick(4, 40)]]
     ares = par.run("vf.props.c31", "worker", acs, nproc=8, timeout=ctx.pick(1200, 3600), asan=True, chunk=1)
     for c, r in list(zip(cs, res)) + list(zip(acs, ares)):
         if r is None:
